@@ -3630,7 +3630,8 @@ impl KotoVm {
 
         match self.get_constant_str(type_index) {
             "Any" => true,
-            "Callable" => value.is_callable(),
+            // A generator function can be called like any other function (the call makes the generator)
+            "Callable" => value.is_callable() || value.is_generator(),
             "Indexable" => value.is_indexable(),
             // Every map can be iterated by a for loop (by its entries if it has no @iterator / @next)
             "Iterable" => value.is_iterable() || matches!(value, KValue::Map(_)),
